@@ -85,10 +85,8 @@ type provider struct {
 	// State
 	disposed int32 // atomic
 
-	// closeDone is closed when the Close call that won the disposed flag has finished;
-	// closer is the goroutine that runs that call, while it runs
+	// closeDone is closed when the Close call that won the disposed flag has finished
 	closeDone chan struct{}
-	closer    atomic.Int64
 }
 
 // instanceKey uniquely identifies a service instance
@@ -203,17 +201,18 @@ func (p *provider) Close() error {
 	if !atomic.CompareAndSwapInt32(&p.disposed, 0, 1) {
 		// Already disposed, or being disposed by another goroutine: wait, so
 		// that a returned Close always means disposed. A call made from inside
-		// that very disposal (the Close method of a singleton or of a scoped
-		// instance that shuts the provider down) cannot wait for it
-		if p.closeDone != nil && !runsOn(&p.closer) {
+		// that very disposal, or the disposal of one of the provider's scopes (the
+		// Close method of a singleton or of a scoped instance that shuts the
+		// provider down), cannot wait for it
+		if p.closeDone != nil && !p.heldByCaller() {
 			<-p.closeDone
 		}
 		return nil
 	}
-	p.closer.Store(goroutineID())
+	running := beginDisposal(nil, p)
 
 	defer func() {
-		p.closer.Store(0)
+		running.end()
 		if p.closeDone != nil {
 			close(p.closeDone)
 		}
